@@ -67,6 +67,7 @@ def run(tier, replay=None):
     else:
         cases = graph_cases(r, tier, 900 if tier == "quick" else 12000, 13 if tier == "quick" else 36, small_exhaustive=4 if tier == "quick" else 5,
                             styles=("unit", "unit", "two", "small", "dyadic", "wide"), big=True)
+        for i, c in enumerate(large_tie_graphs(r, tier)): cases["L%d" % i] = c
     rc, out, err = run_graph_kind(binary, "trees", cases)
     if rc != 0:
         res.violation("harness crashed / sanitizer report", {"kind": "crash", "stderr": err[-3000:]}); return res.finish()
